@@ -4,9 +4,6 @@ namespace GnoVerif.C16
 
 /-! ### global well-formedness of the session table -/
 
-/-- every stored session record is well-formed -/
-def WF (w : World) : Prop := ∀ key s, lookupSess w.sess key = some s → WFS s
-
 theorem WF.set {w : World} (h : WF w) {key : SessKey} {s : Session} (hs : WFS s) :
     WF { w with sess := setSess w.sess key s } := by
   intro key' s' hl
@@ -311,7 +308,7 @@ theorem runTx_signed {w : World} {t : Tx} {m k : Nat} (d : Denom) (hs : t.signed
     exact (ante_inv (by rw [hau]; exact hauth) (by rw [hsg]; exact hm) hwf ha).1
   · obtain ⟨hau, hsg, _, _⟩ := Tx.decode_spec hd
     right; rw [e]
-    obtain ⟨i1, hden⟩ := ante_inv (d := d) (by rw [hau]; exact hauth) (by rw [hsg]; exact hm) hwf ha
+    obtain ⟨i1, hden, _⟩ := ante_inv (d := d) (by rw [hau]; exact hauth) (by rw [hsg]; exact hm) hwf ha
     exact i1.trans (execMsgs_inv (by rw [hau]; exact hauth) i1.has hden hmsgs)
 
 /-- a tx not signed through `(m,k)` and carrying no create for it keeps or removes the record -/
